@@ -15,6 +15,7 @@ from simkit.core import EventLog, RunResult, Violation, sub_rng
 
 PROP = "C19"
 ENGINE = "btreesim"
+HANG_WATCHDOG = True  # (sequential engine: a run that does not come back is a violation, see simkit.runner.run_guarded)
 LEVEL = "exploration"
 TIERS = {
     "quick": {"runs": 20000, "budget_s": 75},
